@@ -146,6 +146,10 @@ def parse_graphic_sequence(
         items = sequence
     # Attempt to make each value an integer
     for idx, value in enumerate(items):
+        if value == '':
+            # An empty parameter stands for its default value, 0 (ex: "31;;1" is read as 31, reset, 1)
+            items[idx] = 0
+            continue
         try:
             items[idx] = int(value)
         except ValueError:
